@@ -132,3 +132,40 @@ pub static E1_DEF: Def = Def {
     ],
 };
 corpus_impl!(E1, bytes, E1_DEF, |t| match t { E1::Abc => 1, E1::Abd => 2, E1::Num => 3, E1::Abcde => 4 }, |_e| 0, |_x| (0, true, 0, 0));
+
+// ---- B6: a class that excludes exactly two non-adjacent bytes out of all 256, on an edge to another state (rendered as a
+// comparison chain with exceptions, not as a table): character literals and escapes
+#[derive(Logos, Debug, PartialEq, Clone, Copy)]
+#[logos(utf8 = false)]
+pub enum B6 {
+    #[regex(r"'((?-u:[^'\\])|\\(?s-u:.))'")] CharLit,
+    #[regex(r"\\(?-u:[^\r\n])")] Escape,
+    #[token("'")] Quote,
+}
+pub static B6_DEF: Def = Def {
+    name: "B6", utf8: false, decide: no_callbacks, log_callbacks: false, default_err: plain_default,
+    pats: &[
+        Pat { p: P::Cat(&[P::Lit(b"'"), P::Alt(&[P::Class(&[(0x00, 0x26), (0x28, 0x5B), (0x5D, 0xFF)]), P::Cat(&[P::Lit(b"\\"), P::Class(&[(0x00, 0xFF)])])]), P::Lit(b"'")]), prio: 6, act: Act::Tok(1) },
+        Pat { p: P::Cat(&[P::Lit(b"\\"), P::Class(&[(0x00, 0x09), (0x0B, 0x0C), (0x0E, 0xFF)])]), prio: 4, act: Act::Tok(2) },
+        Pat { p: P::Lit(b"'"), prio: 2, act: Act::Tok(3) },
+    ],
+};
+corpus_impl!(B6, bytes, B6_DEF, |t| match t { B6::CharLit => 1, B6::Escape => 2, B6::Quote => 3 }, |_e| 0, |_x| (0, true, 0, 0));
+
+// ---- B7: a self-loop over almost all byte values (comment to end of line), long enough inputs to cross the 8-byte batch twice
+#[derive(Logos, Debug, PartialEq, Clone, Copy)]
+#[logos(utf8 = false)]
+pub enum B7 {
+    #[regex("(?-u)#[^\n]*", allow_greedy = true)] Comment,
+    #[token("\n")] Newline,
+    #[regex("[a-z]+")] Word,
+}
+pub static B7_DEF: Def = Def {
+    name: "B7", utf8: false, decide: no_callbacks, log_callbacks: false, default_err: plain_default,
+    pats: &[
+        Pat { p: P::Cat(&[P::Lit(b"#"), P::Star(&P::Class(&[(0x00, 0x09), (0x0B, 0xFF)]))]), prio: 2, act: Act::Tok(1) },
+        Pat { p: P::Lit(b"\n"), prio: 2, act: Act::Tok(2) },
+        Pat { p: P::Plus(&LOWER), prio: 2, act: Act::Tok(3) },
+    ],
+};
+corpus_impl!(B7, bytes, B7_DEF, |t| match t { B7::Comment => 1, B7::Newline => 2, B7::Word => 3 }, |_e| 0, |_x| (0, true, 0, 0));
